@@ -402,7 +402,7 @@ def check(prop, tier, only_obligation=None):
         "violations": len(violations),
     }
     os.makedirs(os.path.join(VERIF, "evidence"), exist_ok=True)
-    json.dump(ev, open(os.path.join(VERIF, "evidence", f"{prop}.json"), "w"), indent=1)
+    json.dump(ev, open(os.path.join(os.environ.get("VERIF_EVID") or os.path.join(VERIF, "evidence"), f"{prop}.json"), "w"), indent=1)   # VERIF_EVID: seed triage writes elsewhere
     for ln in kf_lines:
         print(ln)
     if violations:
